@@ -802,18 +802,27 @@ class GenSig(F.Gen):
     SEC3 = {'wd': [(1, 2), (1, 3), (1, 4)], 'we': [(1, 2), (1, 2), (1, 4)]}     # we: second extent nv >= 2
 
     def sec3_call(self, want=None, forced=False):
-        """sh1(a(:)) gets two scalar subscripts, sh2(b2(:,:)) / sh4(b3(:,:)) one; `forced`: a scalar subscript in a
-        non-trailing position (otherwise non-trailing with probability 0.75)."""
+        """sh1(a(:)) gets two scalar subscripts, sh2(b2(:,:)) / sh4(b3(:,:)) one; `forced`: a call whose scalar subscript
+        is in a non-trailing position."""
         rng = self.rng
-        want = want or rng.choice(['sh1', 'sh2', 'sh4', 'sh4'])
-        arr = rng.choice(['wd', 'wd', 'we'])
-        nonvar = forced or rng.random() < 0.75
-        if want == 'sh1':
-            keep = rng.choice([1, 2]) if nonvar else 0              # the range; at position 1 or 2 it leaves a leading scalar
-            scal = [d for d in range(3) if d != keep]
-        else:
-            sc = rng.choice([0, 1]) if nonvar else 2                # position of the single scalar subscript
-            scal = [sc]
+        if not getattr(self, 'sec3_spec', None):
+            # one section shape per helper and program (all call sites of a callee pass the same extents: explicit shapes
+            # are taken from ONE call site, see notes/C34.md `mixext`); at least one helper gets a non-trailing scalar
+            spec = {}
+            for h in ('sh1', 'sh2', 'sh4'):
+                nonvar = rng.random() < 0.75
+                if h == 'sh1':
+                    keep = rng.choice([1, 2]) if nonvar else 0      # the range; at position 1 or 2 it leaves a leading scalar
+                    scal = [d for d in range(3) if d != keep]
+                else:
+                    scal = [rng.choice([0, 1]) if nonvar else 2]    # position of the single scalar subscript
+                spec[h] = (rng.choice(['wd', 'wd', 'we']), scal)
+            if all(min(sc) > max(d for d in range(3) if d not in sc) for _, sc in spec.values()):
+                spec['sh4'] = (spec['sh4'][0], [rng.choice([0, 1])])
+            self.sec3_spec = spec
+        nontrail = [h for h, (_, sc) in self.sec3_spec.items() if min(sc) < max(d for d in range(3) if d not in sc)]
+        want = rng.choice(nontrail) if forced else want or rng.choice(['sh1', 'sh2', 'sh4', 'sh4'])
+        arr, scal = self.sec3_spec[want]
         subs = []
         for d, (lo, hi) in enumerate(self.SEC3[arr]):
             if d not in scal:
@@ -987,12 +996,31 @@ class GenSig(F.Gen):
         return [{'unit': sh1, 'mkcall': call1}, {'unit': sh2, 'mkcall': call2}]
 
 
+def actual_extents(u, a):
+    """Extents (as text) of an array actual: whole array or section of a local / dummy of unit u."""
+    d = next((x for x in u['decls'] if x['name'] == a['name']), None)
+    if d is None:
+        return ('?',)
+    if d.get('xdims'):
+        ext = [F.rx(hi) if lo == NONE and hi != ASSUMED else f'{F.rx(lo) if lo != NONE else 1}:{F.rx(hi) if hi != ASSUMED else ""}' for lo, hi in d['xdims']]
+    else:
+        ext = [str(hi - lo + 1) for lo, hi in d['dims']]
+    if a['k'] == 'var':
+        return tuple(ext)
+    out = []
+    for e, c in zip(ext, a['c']):
+        if c['k'] == 'range':
+            out.append(e if c['lo'] == NONE and c['hi'] == NONE else F.rsub(c))
+    return tuple(out)
+
+
 def sig_tags(prog):
     """Call-site classes of a C34 program (violation key only)."""
     fam = prog['meta']['family']
     units = {u['name']: u for u in prog['units']}
     tags = set()
     dupgroups = {}
+    extents = {}
     for u in prog['units']:
         for s in walk_stmts(u['body']):
             if s['s'] != 'call' or s['name'] not in units:
@@ -1027,6 +1055,7 @@ def sig_tags(prog):
                         tags.add('specuse')
             elif fam == 'shape' and s['name'].startswith('sh'):
                 a = s['args'][0]
+                extents.setdefault(s['name'], set()).add(actual_extents(u, a))
                 if a['k'] == 'var':
                     decl_ = next((d for d in u['decls'] if d['name'] == a['name']), None)
                     lb1 = decl_ is not None and (all(lo == 1 for lo, _ in decl_['dims']) if not decl_.get('xdims') else all(lo == NONE for lo, _ in decl_['xdims']))
@@ -1047,6 +1076,8 @@ def sig_tags(prog):
     o = prog['meta'].get('opts', {})
     if fam == 'shape' and o.get('clash'):
         tags.add('clash')
+    if any(len(v) > 1 for v in extents.values()):
+        tags.add('mixext')      # call sites of one assumed-shape callee pass different extents
     if fam == 'dup':
         tags.add('rename' if o.get('rename') else 'keepnames')
     if fam in ('dtype', 'tbp'):
